@@ -56,6 +56,9 @@ def qbytes_int8pack_mm(activations: torch.Tensor, weights: torch.Tensor, output_
     output_scales = output_scales.flatten().expand(weights.shape[0]).contiguous()
     activations = activations.contiguous()
     weights = weights.contiguous()
+    if weights.data_ptr() % 16 != 0:
+        # torch._weight_int8pack_mm uses aligned loads: weights deserialized from a safetensors file may not be aligned
+        weights = weights.clone()
     in_features = activations.shape[-1]
     out_features = weights.shape[0]
     output_shape = activations.shape[:-1] + (out_features,)
